@@ -8,6 +8,65 @@ from sa.rules import units, unitflow
 TIMED = ('TimedAlways', 'TimedEventually', 'TimedUntil', 'TimedOnce', 'TimedHistorically', 'TimedSince', 'TimedPrecedes')
 
 
+def _exact(ix, cls, f, e, depth=0):
+    """None if e is computed exactly, else a reason"""
+    if depth > 4:
+        return 'conversion chain too deep'
+    if isinstance(e, ast.Name):
+        defs = [s.value for s in ast.walk(f.node) if isinstance(s, ast.Assign) and isinstance(s.targets[0], ast.Name) and s.targets[0].id == e.id]
+        params = [a.arg for a in f.node.args.args]
+        if not defs:
+            return None if e.id in params else 'unbound name %s' % e.id
+        for d in defs:
+            r = _exact(ix, cls, f, d, depth + 1)
+            if r:
+                return r
+        return None
+    if isinstance(e, ast.Constant):
+        return None if isinstance(e.value, (int, str)) else 'float constant'
+    if isinstance(e, ast.Call):
+        name = e.func.id if isinstance(e.func, ast.Name) else None
+        if name in ('Fraction', 'Decimal', 'int', 'str'):
+            for a in e.args:
+                r = _exact(ix, cls, f, a, depth + 1)
+                if r:
+                    return r
+            return None
+        if name == 'float':
+            return 'float() on the path'
+        if isinstance(e.func, ast.Attribute) and isinstance(e.func.value, ast.Name) and e.func.value.id == 'self':
+            g = ix.resolve_method(cls, e.func.attr)
+            if g is None:
+                return 'unresolved helper %s' % e.func.attr
+            if any(isinstance(c, ast.Call) and isinstance(c.func, ast.Name) and c.func.id == 'float' for c in ast.walk(g.node)):
+                return 'helper %s uses float()' % g.name
+            rets = [r for r in ast.walk(g.node) if isinstance(r, ast.Return) and r.value is not None]
+            if not rets:
+                return 'helper %s returns nothing' % g.name
+            for r in rets:
+                why = _exact(ix, cls, g, r.value, depth + 1)
+                if why:
+                    return why
+            return None
+        if isinstance(e.func, ast.Attribute) and e.func.attr in ('getText',):
+            return None
+        if isinstance(e.func, ast.Attribute) and e.func.attr in ('literal', 'Identifier'):
+            return None
+        return 'call %s' % ast.unparse(e.func)
+    if isinstance(e, ast.Subscript):
+        return None  # table look-up of the declared constant's text
+    if isinstance(e, ast.Attribute):
+        return None
+    return 'expression %s' % type(e).__name__
+
+
+def exact_return(ix, cls, f):
+    for r in ast.walk(f.node):
+        if isinstance(r, ast.Return) and isinstance(r.value, ast.Tuple) and len(r.value.elts) == 2:
+            return _exact(ix, cls, f, r.value.elts[0])
+    return 'no (value, unit) return'
+
+
 def check(ix, rep):
     # 1-3. the two transformers
     units.check_transformer(ix, rep, 'rtamt.semantics.discrete_time_interpreter', 'DiscreteTimeInterpreter', 'discrete')
@@ -41,15 +100,13 @@ def check(ix, rep):
             rep.ok('R-UNITDOM', f.module.rel, f.qual, 'producer', "unit is '' (absent) or a grammar suffix", f.node.lineno)
         else:
             rep.fail('R-UNITDOM', f.module.rel, f.qual, 'producer', 'unit result is not ('' | ctx.unit().getText())', f.node.lineno)
-        # 4. exactness
-        src = ast.unparse(f.node)
-        fr = [c for c in ast.walk(f.node) if isinstance(c, ast.Call) and isinstance(c.func, ast.Name) and c.func.id == 'Fraction'
-              and c.args and isinstance(c.args[0], ast.Call) and getattr(c.args[0].func, 'id', None) == 'Decimal']
-        fl = [c for c in ast.walk(f.node) if isinstance(c, ast.Call) and isinstance(c.func, ast.Name) and c.func.id == 'float']
-        if fr and not fl:
-            rep.ok('R-EXACT', f.module.rel, f.qual, 'Fraction(Decimal(text))', 'bound literal converted exactly', f.node.lineno)
+        # 4. exactness: the number returned with the unit is computed without floating point
+        stlcls = ix.find_class('rtamt.syntax.ast.parser.stl.parser_visitor', 'StlAstParserVisitor')
+        why = exact_return(ix, stlcls, f)
+        if why is None:
+            rep.ok('R-EXACT', f.module.rel, f.qual, 'exact-bound', 'bound literal converted exactly (Fraction of Decimal / int)', f.node.lineno)
         else:
-            rep.fail('R-EXACT', f.module.rel, f.qual, 'Fraction(Decimal(text))', 'bound literal goes through float(): 0.1 s over a 100 ms period is no longer an exact multiple', f.node.lineno)
+            rep.fail('R-EXACT', f.module.rel, f.qual, 'exact-bound', 'the bound is not converted exactly (%s): 0.1 s over a 100 ms period is no longer an exact multiple' % why, f.node.lineno)
     # interval construction passes both units through
     stl = ix.find_class('rtamt.syntax.ast.parser.stl.parser_visitor', 'StlAstParserVisitor')
     vi = stl.methods.get('visitInterval')
